@@ -126,24 +126,23 @@ found:
 		return errors.New("index: attempt to add record out of position sort order")
 	}
 	i.LastRecord = r.Start()
-	eiv := r.End() / TileWidth
-	if eiv == len(ref.Intervals) {
-		if eiv > biv {
-			panic("index: unexpected alignment length")
-		}
-		ref.Intervals = append(ref.Intervals, c.Begin)
-	} else if eiv > len(ref.Intervals) {
-		intvs := make([]bgzf.Offset, eiv)
+	// eiv is the last tile the record touches.
+	eiv := (r.End() - 1) / TileWidth
+	if eiv < biv {
+		eiv = biv
+	}
+	if eiv >= len(ref.Intervals) {
+		// This record is the first to reach the tiles from the end
+		// of the existing intervals, or from its own first tile if
+		// that is later, to eiv.
+		intvs := make([]bgzf.Offset, eiv+1)
+		copy(intvs, ref.Intervals)
 		if len(ref.Intervals) > biv {
 			biv = len(ref.Intervals)
 		}
-		for iv, offset := range intvs[biv:eiv] {
-			if !isZero(offset) {
-				panic("index: unexpected non-zero offset")
-			}
-			intvs[iv+biv] = c.Begin
+		for iv := biv; iv <= eiv; iv++ {
+			intvs[iv] = c.Begin
 		}
-		copy(intvs, ref.Intervals)
 		ref.Intervals = intvs
 	}
 
